@@ -348,3 +348,6 @@ def np_case(rq, o):
             return None
     mnp = int(rq.param("solver.max_no_progress", "10"))
     return "(CNp %s %s %s)" % (coqnat(mnp), coqlist([coqbool(b) for b in sames]), coqbool(exit_np))
+    # whole-loop tie for PANOC: verified model (Panoc.v) vs the real solver on whole runs
+    from vf.props import PANOC
+    PANOC.attach(ctx)
